@@ -10,12 +10,30 @@ import (
 	"strings"
 	"sync/atomic"
 
+	"verifharness/audit"
 	"verifharness/gen"
 	"verifharness/mc"
 	"verifharness/props/c14"
 )
 
 var roles = []string{"origin", "maint", "archive"}
+
+// alphabet audit: literals a change introduced into the tree under test (none on the unchanged tree)
+
+// auditRoles: new strings usable as a debsig role ("_gpg"+role must fit an ar name).
+func auditRoles(max int) []string {
+	return gen.AuditStrings(func(s string) bool {
+		s2 := strings.TrimPrefix(s, "_gpg")
+		return gen.Nameish(s2) && len(s2) <= 12 && !has(roles, s2)
+	}, max)
+}
+
+// auditMemberNames: new strings usable as an ar member name.
+func auditMemberNames(max int) []string {
+	return gen.AuditStrings(func(s string) bool {
+		return len(s) <= 16 && gen.OneLine(s) && !strings.ContainsAny(s, " /\t") && s != "debian-binary"
+	}, max)
+}
 
 // base is one signed-content model with its three canonical members.
 type base struct {
@@ -121,6 +139,12 @@ func runIns(r *mc.Run, scen string, ins []In, st *mc.Stats) bool {
 			return false
 		}
 		vs, outs := Check(scen, in)
+		if len(outs) == 0 {
+			for _, v := range vs {
+				st.Violate(v)
+			}
+			return false // the process has seen a hang (or the keyring was unreadable): stop
+		}
 		st.Evals += int64(len(outs))
 		st.Traces += int64(len(outs))
 		st.Transitions += int64(len(outs))
@@ -257,6 +281,11 @@ func Run(r *mc.Run) {
 	}
 
 	// ---- scenario 1: role present x role asked x keyring
+	allRoles := append([]string{}, roles...)
+	for _, a := range auditRoles(3) {
+		allRoles = append(allRoles, strings.TrimPrefix(a, "_gpg"))
+	}
+	r.Extra["alphabet_audit"] = audit.Evidence()
 	keyrings := [][]string{{"K1"}, {"K2"}, {"K1", "K2"}, {}}
 	var ins []In
 	for _, b := range bases {
@@ -267,9 +296,9 @@ func Run(r *mc.Run) {
 				}
 				return insertAt(b.mem, 1, sms...)
 			}
-			for _, present := range roles {
+			for _, present := range allRoles {
 				sm, si := e.sigMember(present, "K1", b.signed())
-				for _, ask := range roles {
+				for _, ask := range allRoles {
 					for _, kr := range keyrings {
 						ins = append(ins, e.mk(b, "matrix", fmt.Sprintf("signed %s by K1 (sig %s), ask %s, keyring %v", present, pos, ask, kr), "", place(sm), []SigInfo{si}, ask, kr, false))
 					}
@@ -282,7 +311,7 @@ func Run(r *mc.Run) {
 			swO.Name, swM.Name = "_gpgmaint", "_gpgorigin"
 			xO, xM := siO, siM
 			xO.Role, xM.Role = "maint", "origin"
-			for _, ask := range roles {
+			for _, ask := range allRoles {
 				for _, kr := range keyrings {
 					ins = append(ins, e.mk(b, "matrix", fmt.Sprintf("origin by K1 + maint by K2 (sig %s), ask %s, keyring %v", pos, ask, kr), "", place(smO, smM), []SigInfo{siO, siM}, ask, kr, false))
 					ins = append(ins, e.mk(b, "matrix", fmt.Sprintf("roles swapped: _gpgmaint holds K1's, _gpgorigin holds K2's signature (sig %s), ask %s, keyring %v", pos, ask, kr), "signature members renamed into each other", place(swO, swM), []SigInfo{xO, xM}, ask, kr, false))
@@ -290,7 +319,7 @@ func Run(r *mc.Run) {
 			}
 		}
 	}
-	e.scenario("role-keyring-matrix", map[string]interface{}{"bases": names(bases), "role_present": roles, "role_asked": roles, "keyrings": keyrings,
+	e.scenario("role-keyring-matrix", map[string]interface{}{"bases": names(bases), "role_present": allRoles, "role_asked": allRoles, "keyrings": keyrings,
 		"signature_member_position": []string{"end", "after-debian-binary"}, "extra": "two-signature package and the same with the two signature members' names swapped"}, ins, 8)
 
 	// ---- scenario 1b: CALL SEQUENCES on one loaded Deb: all sequences of <= 3 CheckDebsig calls over
@@ -298,6 +327,9 @@ func Run(r *mc.Run) {
 	// for one signed twice (origin by K1, maint by K2). Each call is judged independently of the history.
 	{
 		seqRoles := []string{"origin", "maint", "archive", ""}
+		for _, a := range auditRoles(1) {
+			seqRoles = append(seqRoles, strings.TrimPrefix(a, "_gpg"))
+		}
 		var alphabet []Call
 		for _, ro := range seqRoles {
 			for _, kr := range keyrings {
@@ -359,6 +391,12 @@ func Run(r *mc.Run) {
 		xors = append(xors, 0xff)
 	}
 	suffixes := []string{"\n", "x", "\x00", "\n\n", "xy", "extra line\n", "2.0\n", strings.Repeat("\x00", 512)}
+	for _, n := range gen.AuditInts(1, 1<<16, 6) { // alphabet audit: new integer literals as appended lengths
+		suffixes = append(suffixes, strings.Repeat("\x00", int(n)))
+	}
+	for _, a := range gen.AuditStrings(gen.OneLine, 3) {
+		suffixes = append(suffixes, a, a+"\n")
+	}
 	inserted := []byte{0x00, 'x'}
 	type fshard struct {
 		b      int
@@ -449,6 +487,72 @@ func Run(r *mc.Run) {
 	}
 	e.scenario("decoy-members", map[string]interface{}{"bases": names(bases), "decoys": decoyNames(e, bases[0], r.Quick()), "positions": "every member position 0..4",
 		"orders": c14.MapOrderNote, "repetitions_per_variant": c14.MapOrderReps}, ins, 1)
+
+	// ---- scenario 3b: SWAPS - a member's content is replaced by the attacker's and the originally signed bytes stay in
+	// the archive under another name (so a verifier that selects members differently from the loader could still find
+	// them); for each of the four members, each name of a name alphabet, every position, under the explored map orders.
+	ins = nil
+	altNames := func(name string) []string {
+		cands := []string{"_" + name, "old-" + name, "x" + name, name + ".orig", "." + name, strings.ToUpper(name)}
+		switch {
+		case strings.HasSuffix(name, ".tar.gz"):
+			cands = append(cands, strings.TrimSuffix(name, ".gz")+".xz", strings.TrimSuffix(name, ".gz"))
+		case strings.HasSuffix(name, ".tar"):
+			cands = append(cands, name+".gz", name+".xz")
+		}
+		cands = append(cands, auditMemberNames(4)...)
+		var out []string
+		for _, c := range cands {
+			if len(c) <= 16 && c != name && !has(out, c) {
+				out = append(out, c)
+			}
+		}
+		return out
+	}
+	swapNames := map[string][]string{}
+	for _, b := range bases[:2] {
+		sm, si := e.sigMember("origin", "K1", b.signed())
+		full := append(append([]gen.ArMember(nil), b.mem...), sm)
+		dcs := e.decoys(b, true)
+		evilCtl, err1 := e.c.Compress(b.model.ControlComp, gen.DebModel{Fields: []gen.DebField{{Key: "Package", Value: "evil"}, {Key: "Version", Value: "9"}, {Key: "Architecture", Value: "all"}}}.ControlTar())
+		evilDat, err2 := e.c.Compress(b.model.DataComp, gen.BuildTar([]gen.TarEntry{{Name: "./etc/cron.d/evil", Body: []byte("* * * * * root true\n")}}))
+		if err1 != nil || err2 != nil {
+			r.HarnessError("swap content: %v %v", err1, err2)
+			break
+		}
+		// alphabet audit: a further member under a name the change introduced, holding the attacker's control tar
+		for _, a := range auditMemberNames(4) {
+			for pos := 0; pos <= len(full); pos++ {
+				ins = append(ins, e.mk(b, "decoy", fmt.Sprintf("audit: further member %q at position %d", a, pos), "inserted member "+a+" (attacker's control tar) at position "+fmt.Sprint(pos),
+					insertAt(full, pos, gen.ArMember{Name: a, Data: dcs[1].mem[0].Data}), []SigInfo{si}, "origin", []string{"K1"}, true))
+			}
+		}
+		sm2, si2 := e.sigMember("origin", "K2", b.signed())
+		repl := [][]byte{[]byte("2.0\nevil\n"), evilCtl, evilDat, sm2.Data}
+		for mi := range full {
+			alts := altNames(full[mi].Name)
+			swapNames[full[mi].Name] = alts
+			for _, alt := range alts {
+				for pos := 0; pos <= len(full); pos++ {
+					ms := append([]gen.ArMember(nil), full...)
+					ms[mi].Data = repl[mi]
+					ms = insertAt(ms, pos, gen.ArMember{Name: alt, Data: full[mi].Data})
+					sigs := []SigInfo{si}
+					if mi == 3 {
+						sigs = []SigInfo{si2} // _gpgorigin now holds K2's signature; K1's is kept under the other name; keyring stays [K1]
+					}
+					ins = append(ins, e.mk(b, "swap", fmt.Sprintf("%s replaced, original kept as %s at position %d", full[mi].Name, alt, pos),
+						fmt.Sprintf("content of %s replaced by the attacker's; the signed original kept as member %q at position %d", full[mi].Name, alt, pos),
+						ms, sigs, "origin", []string{"K1"}, true))
+				}
+			}
+		}
+	}
+	c14.MapOrderBound = r.Pick(1, 2)
+	e.scenario("swapped-members", map[string]interface{}{"bases": names(bases[:2]), "kept_original_names": swapNames, "positions": "every member position 0..4",
+		"replacement":                "debian-binary -> \"2.0\\nevil\\n\"; control/data -> the attacker's tar in the same encoding; _gpgorigin -> K2's signature (keyring stays [K1])",
+		"names_longer_than_16_bytes": "dropped (ar name field)", "map_order_deviation_bound": c14.MapOrderBound, "orders": c14.MapOrderNote}, ins, 1)
+	c14.MapOrderBound = 2
 
 	// ---- scenario 4: signed or signature members renamed
 	ins = nil
